@@ -244,3 +244,30 @@ Example C03_issuer_witness :
     = [Ok tt; Err (s2l "SignatureError"); Ok tt; Err (s2l "SignatureError"); Ok tt; Err (s2l "SignatureError")].
 Proof. vm_compute. repeat split; reflexivity. Qed.
 Print Assumptions C03_issuer_witness.
+
+(* ======================================================================================
+   GLUE to C16 (Proofs/Glue_certs.v, docs/Glue.md).  The metadata store above is Model/CertSelect.v's; the model
+   that C16 ties to MetadataStore / MetaData.certs is Model/MdStore.v (certificate texts, role descriptors with a
+   type, several sources, loading with expiry and signature verification).  [abs_store num st] is the C16 store st
+   read as a CertSelect store (one key-descriptor group per descriptor type in the order certs() visits them,
+   texts numbered by num after repack_cert); Glue_md_certs_agree (Props/Glue.v) shows md_certs and store_certs
+   return the same list through it.  For the store an SP loaded from its configured sources: an accepted
+   signature's key - and every key [trusted_for] the issuer, which is what C03_document, C03_accepted_under_own_issuer
+   and the history theorems conclude - is a certificate of a signing / use-less KeyDescriptor in a role descriptor
+   of an UNEXPIRED EntityDescriptor carrying the issuer's entity id, in the document of a source that load()
+   registered (admissible: signed + verification certificate configured => remote and verified). *)
+From PV Require Model.MdStore Proofs.Glue_certs.
+Theorem C03_accepted_key_is_declared_in_loaded_metadata :
+  forall num now srcs,
+    let st := MdStore.load_all now [] srcs in
+    (forall mp issuer embedded signer,
+       check_signature mp (Glue_certs.abs_store num st) issuer true embedded signer = Ok tt ->
+       mp = true /\ exists i, issuer = Some i /\ Glue_certs.declared_in_documents num now srcs MdStore.U_SIGNING i signer) /\
+    (forall i k, trusted_for (Glue_certs.abs_store num st) i k ->
+       Glue_certs.declared_in_documents num now srcs MdStore.U_SIGNING i k).
+Proof.
+  intros num now srcs st. split.
+  - intros mp issuer embedded signer. apply Glue_certs.accepted_key_in_loaded_documents.
+  - intros i k. apply Glue_certs.trusted_for_in_loaded_documents.
+Qed.
+Print Assumptions C03_accepted_key_is_declared_in_loaded_metadata.
